@@ -39,6 +39,7 @@ type specCtx struct {
 	st    *State
 	old   *State
 	entry map[string]Value // parameter values at function entry (for old(p) inside bodies)
+	loop  *loopInfo        // the loop whose invariant is evaluated (disambiguates shadowed locals)
 	body  bool             // names resolve to current local cells first
 	anchor token.Pos
 	bseq  *int
@@ -114,6 +115,17 @@ func (sc *specCtx) lookupLocal(name string) (Value, bool) {
 			if best == nil {
 				best = a
 				continue
+			}
+			// a local assigned inside the annotated loop wins over a stale namesake
+			if sc.loop != nil {
+				sa, sb := storedIn(sc.loop, a), storedIn(sc.loop, best)
+				if sa && !sb {
+					best = a
+					continue
+				}
+				if sb && !sa {
+					continue
+				}
 			}
 			// prefer the declaration closest before the anchor
 			if sc.anchor.IsValid() {
@@ -234,7 +246,14 @@ func (sc *specCtx) eval(e ast.Expr) Value {
 		if e.High != nil {
 			hi = sc.evalInt(e.High)
 		}
-		switch base.T.Underlying().(type) {
+		switch bt := base.T.Underlying().(type) {
+		case *types.Pointer:
+			if at, ok := bt.Elem().Underlying().(*types.Array); ok {
+				if hi == nil {
+					hi = Num(at.Len())
+				}
+				return Value{T: types.NewSlice(at.Elem()), C: []*Term{base.C[0], lo, Sub(hi, lo), Sub(Num(at.Len()), lo)}}
+			}
 		case *types.Slice:
 			if hi == nil {
 				hi = base.C[2]
@@ -597,7 +616,7 @@ func (sc *specCtx) call(e *ast.CallExpr) Value {
 		// seq_eq(a, ao, b, bo, n) over content arrays
 		a, ao, b, bo, n := sc.eval(arg(0)).C[0], sc.evalInt(arg(1)), sc.eval(arg(2)).C[0], sc.evalInt(arg(3)), sc.evalInt(arg(4))
 		return mBool(App("streq", SBool, a, ao, n, b, bo, n))
-	case "flatlen", "flatat", "flatlenk", "flatatk":
+	case "flatlen", "flatat", "flatlenk", "flatatk", "fnvbufs":
 		// flattened view of a [][]byte value: flatlen(v), flatat(v, j); the k-variants take the number of buffers
 		v := sc.eval(arg(0))
 		sl, ok := v.T.Underlying().(*types.Slice)
@@ -616,6 +635,11 @@ func (sc *specCtx) call(e *ast.CallExpr) Value {
 		if name == "flatlenk" || name == "flatatk" {
 			k = sc.evalInt(arg(1))
 			ai = 2
+		}
+		if name == "fnvbufs" {
+			// FNV state after hashing the first k buffers, starting from the offset basis
+			x.usedFuncs["fnvbufs_"] = true
+			return mInt(App("spec.fnvbufs_", SInt, Num(2166136261), E, refs, offs, lens, v.C[1], sc.evalInt(arg(1))))
 		}
 		x.usedFuncs["flatlen_"] = true
 		if name == "flatlen" || name == "flatlenk" {
@@ -880,4 +904,15 @@ func (sc *specCtx) typeExpr(e ast.Expr) types.Type {
 	}
 	sc.errf(e, "unknown type")
 	return nil
+}
+
+func storedIn(l *loopInfo, a *ssa.Alloc) bool {
+	for b := range l.Body {
+		for _, in := range b.Instrs {
+			if st, ok := in.(*ssa.Store); ok && st.Addr == a {
+				return true
+			}
+		}
+	}
+	return false
 }
